@@ -219,11 +219,6 @@ package node
 //@   modifies pushed(self)
 //@   ensures pushed(self) == old(pushed(self)) + (result ? 1 : 0)
 
-//@ func (p *process) run
-//@   trusted
-//@   modifies woken(p)
-//@   ensures woken(p) == old(woken(p)) + 1
-
 //@ func (p *process) isAlive
 //@   inline
 
@@ -235,7 +230,7 @@ package node
 //@   trusted
 //@ iface gen.Connection.SendPID
 
-//@ spec func processesWF(n *node) bool = forall k any :: smHas(n.processes, k) ==> typeis(smVal(n.processes, k), *process) && smVal(n.processes, k).(*process) != nil
+//@ spec func processesWF(n *node) bool = forall k any :: smHas(n.processes, k) ==> typeis(smVal(n.processes, k), *process) && smVal(n.processes, k).(*process) != nil && smVal(n.processes, k).(*process).state != 1
 //@ spec func procOf(n *node, pid gen.PID) *process = smVal(n.processes, any(pid)).(*process)
 //@ spec func prioQueue(p *process, prio gen.MessagePriority) lib.QueueMPSC = (prio == gen.MessagePriorityHigh ? p.mailbox.System : (prio == gen.MessagePriorityMax ? p.mailbox.Urgent : p.mailbox.Main))
 //@ spec func mailboxWF(p *process) bool = p.mailbox.Main != nil && p.mailbox.System != nil && p.mailbox.Urgent != nil && p.mailbox.Main != p.mailbox.System && p.mailbox.Main != p.mailbox.Urgent && p.mailbox.System != p.mailbox.Urgent
@@ -280,3 +275,95 @@ package node
 //@   requires [tables] namesWF(n)
 //@   ensures [accepted_one_push_then_wake] result == nil && to.Node == n.name ==> smHas(n.names, any(to.Name)) && pushed(prioQueue(procByName(n, to.Name), options.Priority)) == old(pushed(prioQueue(procByName(n, to.Name), options.Priority))) + 1 && woken(procByName(n, to.Name)) == old(woken(procByName(n, to.Name))) + 1
 //@   ensures [refused_nothing_pushed] result != nil && to.Node == n.name ==> (forall q lib.QueueMPSC :: pushed(q) == old(pushed(q))) && (forall x *process :: woken(x) == old(woken(x)))
+
+// ---------------------------------------------------------------------------------------------
+// C01 / C05: the process state word as a rely/guarantee protocol. Ghosts: owner(p) is the id of the
+// goroutine holding the run token (the only one allowed to call ProcessInit/ProcessRun), fin(p)
+// the id of the goroutine elected to finalise the process (the only one allowed to call
+// unregisterProcess/ProcessTerminate). 0 = nobody.
+// States: Init 1, Sleep 2, Running 4, WaitResponse 8, Terminated 16, Zombee 32.
+
+//@ ghostheap owner(p *process) int
+//@ ghostheap fin(p *process) int
+//@ ghostheap zs(p *process) int
+
+// zs(p): the killer that turned a sleeping (token-less) process into a Zombee; it alone may finalise it.
+//@ spec func psInv(s int32, o int, f int, z int) bool = (s == 1 || s == 2 || s == 4 || s == 8 || s == 16 || s == 32) && (s == 2 ==> o == 0 && f == 0 && z == 0) && (s == 4 || s == 8 || s == 1 ==> o != 0 && f == 0 && z == 0) && (f != 0 ==> s == 16 || s == 32) && (s == 16 ==> f != 0) && (f != 0 ==> o == 0 || o == f) && (z != 0 ==> o == 0 && (s == 16 || s == 32)) && (s == 32 && o == 0 && f == 0 ==> z != 0)
+//@ spec func psGuar(me int, s int32, o int, f int, z int, s2 int32, o2 int, f2 int, z2 int) bool = (s2 == s && o2 == o && f2 == f && z2 == z) || (s == 2 && s2 == 4 && o2 != 0 && f2 == f && z2 == z) || (o == me && s == 4 && s2 == 2 && o2 == 0 && f2 == f && z2 == z) || (o == me && (s == 4 && s2 == 8 || s == 8 && s2 == 4) && o2 == o && f2 == f && z2 == z) || (s == 1 && o == me && s2 == 2 && o2 == 0 && f2 == f && z2 == z) || (s2 == 32 && s != 1 && o2 == o && f2 == f && (s == 2 ? z2 == me : z2 == z)) || (s == 32 && f != 0 && s2 == 16 && o2 == o && f2 == f && z2 == z) || (s2 == 16 && s != 16 && f == 0 && f2 == me && o2 == o && z2 == z && (o == me || (o == 0 && z == me))) || (f == me && o == 0 && f2 != 0 && s2 == s && o2 == o && z2 == z)
+//@ spec func psRely(me int, s int32, o int, f int, z int, s2 int32, o2 int, f2 int, z2 int) bool = (o == me ==> o2 == me && (f == 0 ==> f2 == 0) && z2 == z && (s2 == s || s2 == 32 || (f != 0 && s2 == 16))) && (z == me && f == 0 ==> z2 == me && o2 == 0 && f2 == 0 && s2 == 32) && (f == me ==> f2 == me) && (f != 0 ==> f2 != 0) && (f != me ==> f2 != me) && (o != me ==> o2 != me) && (z != me ==> z2 != me) && (s != 1 ==> s2 != 1)
+
+//@ protocol procState field process.state ghosts owner fin zs inv psInv rely psRely guar psGuar
+
+// what the other threads may do to me is what the guarantee lets them do. The run token is handed
+// over only to the waking thread itself or to a goroutine it starts (checked at the go statement),
+// and a newly started goroutine is never one that is already running (A-FRESH): hence the
+// hypotheses o2 != me for the wake-up step and f2 != me for the hand-over of the finaliser role.
+//@ lemma procState_rely_covers_guarantee props C01 C05: forall me, t int, s, s2 int32, o, f, z, o2, f2, z2 int :: t != me && t != 0 && me != 0 && psInv(s, o, f, z) && psInv(s2, o2, f2, z2) && psGuar(t, s, o, f, z, s2, o2, f2, z2) && !(s == 2 && s2 == 4 && o2 == me) && !(f != me && f2 == me && f == t) ==> psRely(me, s, o, f, z, s2, o2, f2, z2)
+// two threads can never both be entitled to run a callback of the same process
+//@ lemma procState_callbacks_exclusive props C01 C05: forall a, b int, s int32, o, f, z int :: psInv(s, o, f, z) && a != b && a != 0 && b != 0 ==> !(o == a && o == b) && !(f == a && f == b) && !(o == a && f == b)
+
+//@ func (p *process) run
+//@   props C01 C05
+//@   protocol procState at p
+//@   modifies woken(p), p.state, owner(p), fin(p)
+//@   ensures_ghost woken(p) == old(woken(p)) + 1
+//@   at atomic 1 ghost owner = (result ? child : owner(p))
+
+// the goroutine started by run(): it holds the run token from the start; every ProcessRun call is
+// made while holding it; whoever turns the state to Terminated first becomes the finaliser and is
+// the only one to call unregisterProcess and ProcessTerminate.
+//@ iface gen.ProcessBehavior.ProcessRun
+//@ iface gen.ProcessBehavior.ProcessTerminate
+//@ func (n *node) unregisterProcess
+//@   trusted
+//@ func (l *log) Panic
+//@   trusted
+//@ func runtime.Caller
+//@   trusted
+//@ func runtime.FuncForPC
+//@   trusted
+//@ func (*runtime.Func).Name
+//@   trusted
+//@ func errors.Unwrap
+//@   trusted
+//@ iface lib.QueueMPSC.Item
+
+//@ func (p *process) run$1
+//@   props C01 C05
+//@   protocol procState at p
+//@   requires [holds_token] p != nil && owner(p) == me && fin(p) == 0
+//@   loop 1 invariant [still_owner] owner(p) == me && fin(p) == 0
+//@   at call ProcessRun assert [exclusive] owner(p) == me && fin(p) == 0
+//@   at call unregisterProcess assert [finaliser_only] fin(p) == me
+//@   at call ProcessTerminate assert [finaliser_only_after_last_callback] fin(p) == me && (owner(p) == 0 || owner(p) == me)
+//@   at atomic 1 ghost fin = (result != 16 && fin(p) == 0 ? me : fin(p))
+//@   at atomic 2 ghost owner = (result ? 0 : owner(p))
+//@   at atomic 3 ghost fin = (result != 16 && fin(p) == 0 ? me : fin(p))
+//@   at atomic 4 ghost owner = (result ? me : owner(p))
+
+// the deferred panic handler of the runner goroutine: reached only from a panic inside ProcessRun,
+// i.e. while this goroutine holds the run token
+//@ func (p *process) run$1$1
+//@   props C01 C05
+//@   protocol procState at p
+//@   requires [holds_token] p != nil && owner(p) == me && fin(p) == 0
+//@   at call unregisterProcess assert [finaliser_only] fin(p) == me
+//@   at call ProcessTerminate assert [finaliser_only_after_last_callback] fin(p) == me && (owner(p) == 0 || owner(p) == me)
+//@   at atomic 1 ghost fin = (result != 16 && fin(p) == 0 ? me : fin(p))
+
+// Node.Kill: marks the process Zombee; finalises it itself only when nobody holds the run token
+//@ func (n *node) Kill
+//@   props C01 C05
+//@   protocol procState at p
+//@   requires [tables] processesWF(n)
+//@   at call unregisterProcess assert [finaliser_only] fin(p) == me && owner(p) == 0
+//@   at atomic 1 ghost zs = (result == 2 ? me : zs(p))
+//@   at atomic 3 ghost fin = (result != 16 && fin(p) == 0 ? me : fin(p))
+//@   at go ghost fin = child
+
+// the goroutine Kill starts to run the terminate callback
+//@ func (n *node) Kill$1
+//@   props C01 C05
+//@   protocol procState at p
+//@   requires [is_finaliser] p != nil && fin(p) == me && owner(p) == 0
+//@   at call ProcessTerminate assert [finaliser_only_after_last_callback] fin(p) == me && (owner(p) == 0 || owner(p) == me)
